@@ -202,7 +202,6 @@ func (r *rollbackMitigation) startObserve(groupID int) {
 
 	r.loadVbUUIDMap()
 
-	r.observeTimer = time.NewTicker(r.config.RollbackMitigation.Interval)
 	for {
 		select {
 		case <-r.observeTimer.C:
@@ -298,6 +297,10 @@ func (r *rollbackMitigation) reconfigure() {
 		logger.Log.Error("error while mark absent instances, err: %v", err)
 		panic(err)
 	}
+
+	// (created before the goroutine is started, not by the goroutine after it has loaded the fail-over logs: a
+	// Stop() or a reconfigure that arrives while it is still loading must find the loop it has to stop)
+	r.observeTimer = time.NewTicker(r.config.RollbackMitigation.Interval)
 
 	go r.startObserve(r.activeGroupID)
 }
